@@ -10,6 +10,8 @@ use unimock::*;
 pub enum Base {
     Call(usize, u32, u8),
     Clone(usize),
+    /// `slots[i].clone_from(&slots[j])`
+    CloneFrom(usize, usize),
     Drop(usize),
     Verify(usize),
     Nvid(usize),
@@ -272,6 +274,19 @@ pub fn run_base(slots: &mut Vec<Option<Unimock>>, unwinding: bool, base: &Base) 
             slots.push(Some(c));
             "ok".into()
         }
+        Base::CloneFrom(i, j) => {
+            if !alive(slots, i) || !alive(slots, j) || i == j {
+                return "invalid".into();
+            }
+            // the target is overwritten in place: its old value is dropped (torn down) by the assignment inside clone_from
+            let mut target = slots[i].take().unwrap();
+            let r = {
+                let source = slots[j].as_ref().unwrap();
+                obs(catch_unwind(AssertUnwindSafe(|| target.clone_from(source))), |()| "ok".into())
+            };
+            slots[i] = Some(target);
+            r
+        }
         Base::Drop(i) => {
             if !alive(slots, i) {
                 return "invalid".into();
@@ -370,6 +385,7 @@ pub fn parse_event(tok: &str) -> Event {
     let base = match parts[0] {
         "call" => Base::Call(ix(1), ix(2) as u32, ix(3) as u8),
         "clone" => Base::Clone(ix(1)),
+        "clonefrom" => Base::CloneFrom(ix(1), ix(2)),
         "drop" => Base::Drop(ix(1)),
         "verify" => Base::Verify(ix(1)),
         "nvid" => Base::Nvid(ix(1)),
